@@ -25,7 +25,26 @@ def lam_of_global(ctx, rel, name):
 
 def init_self(ctx, rel, cls, args=None, kwargs=None, unroll=256, **kw):
     sm = ctx.summ(rel, cls + '.__init__', args=args, kwargs=kwargs, unroll=unroll, **kw)
-    return sm.env['self']
+    return known_class_view(ctx, rel, cls, sm.env['self'])
+
+
+def known_class_view(ctx, rel, cls, t):
+    """The object after calls that may write it is mut(method, before, args).  The evaluator knows the method by name only (all
+    classes joined); here the class is known, so the layer is made precise: attributes that THIS class's method cannot store are
+    those of the object before the call, the others stay opaque values of the call."""
+    if t[0] == 'obj':
+        return ('obj', known_class_view(ctx, rel, cls, t[1]), t[2])
+    if t[0] != 'mut' or type(t[1]) is not str:
+        return t
+    fm = ctx.repo.find_method(rel, cls, t[1])
+    if fm is None:
+        return t
+    fdef = ctx.repo.modules[fm[0]].functions[fm[1]]
+    w = ctx.purity()._writes(fdef, True).get(0, set())
+    if '*' in w:
+        return t
+    base = known_class_view(ctx, rel, cls, t[2])
+    return T.mk_obj(base, {a: ('attr', t, a) for a in sorted(w)}) if w else base
 
 
 def cmp_fn(ctx, construct, rel, qual, spec_src, opts=None, holes=None, name=None, **kw):
@@ -33,8 +52,11 @@ def cmp_fn(ctx, construct, rel, qual, spec_src, opts=None, holes=None, name=None
     where = ctx.where(rel, qual)
 
     def go():
-        got = ctx.fn_term(rel, qual, opts=opts, **kw)
         exp = ctx.spec_term(spec_src, opts=opts, name=name, **kw)
+        try:
+            got = ctx.fn_term(rel, qual, opts=opts, **kw)
+        except T.Refused as e:
+            return ctx.bad(construct, 'cannot be shown to be the specified computation: %s' % e, where)
         if got != exp and 'call_hook' not in kw:
             # helpers extracted from the function (calls the specification never makes): inline the simple pure ones first
             g0 = _inline_new_helpers(ctx, rel, qual, got, exp, opts, kw)
